@@ -358,7 +358,43 @@ def rule_passthrough(ctx):
                       'metropolis_hastings_probabilities', 'pair_allele_swap_step')], 'mchap.pedigree.', SCRATCH, minimum=8)
 
 
+def rule_available_copies(ctx):
+    """The Gibbs conditional enumerates every split of the progeny's alleles over the two gametes; splits in which a gamete already
+    holds more copies of the allele than its parent has must weigh zero.  gamete_allele_log_pmf forms the number of copies still
+    available in the parent as a difference of counts and takes the logarithm of a product with it: that difference must be cut off
+    at zero (or the case returned early), otherwise gametes of three or more copies - hexaploids - give log(negative) = NaN and the
+    update aborts (defect U)."""
+    fq = PRI + 'gamete_allele_log_pmf'
+    f = ctx.func(fq)
+    r = ctx.recon(fq)
+    n = 0
+    for ev in r.events:
+        if ev.kind != 'return':
+            continue
+        logs = [x for x in walk(ev.data[0]) if x[0] == 'call' and x[1] in ('numpy.log', 'math.log')]
+        for lg in logs:
+            n += 1
+            arg = lg[2][0]
+            clamped = {id(a) for x in walk(arg) if x[0] == 'call' and x[1] in ('max', 'numpy.maximum') and len(x[2]) == 2
+                       and ('const', 0) in x[2] for a in x[2]}
+            def counts(t):
+                ps = {y[1] for y in walk(t) if y[0] == 'param'}
+                return 'parent_count' in ps and 'gamete_count' in ps
+            bare = [x for x in walk(arg) if x[0] == 'bin' and x[1] == 'Sub' and counts(x) and id(x) not in clamped
+                    and not any(id(x) != id(y) and y[0] == 'bin' and y[1] == 'Sub' and counts(y) and any(z is x for z in walk(y)) and id(y) in clamped for y in walk(arg))]
+            def plain(t):       # a comparison of the counts themselves (sums and differences of parameters), not of a derived probability
+                return all(y[0] in ('cmp', 'param', 'const') or (y[0] == 'bin' and y[1] in ('Sub', 'Add')) for y in walk(t))
+            guarded = any(c[0][0] == 'cmp' and counts(c[0]) and plain(c[0]) for c in ev.conds if isinstance(c[0], tuple))
+            ctx.check(not bare or guarded, 'R18.8/available-copies', f.construct('available copies'),
+                      "copies still available in the parent = max(parent copies - copies already in the gamete, 0)",
+                      "the number of copies still available in the parent (parent_count - (gamete_count - 1)) enters the logarithm without "
+                      "a lower bound of zero: a gamete holding two or more copies beyond the parent's gives log of a negative number (NaN) "
+                      "instead of probability zero, and the Gibbs update of a hexaploid aborts", f.where())
+    ctx.need(n >= 1, f"{fq}: no logarithm of the allele probability found")
+
+
 def run(ctx):
+    rule_available_copies(ctx)
     rule_mh(ctx)
     rule_gibbs(ctx)
     rule_allele_step(ctx)
